@@ -26,7 +26,10 @@ RULE = ("case = (recorded-run spec, crash boundary k). Specs are drawn by Hypoth
         "coupled pair under NonlinearBlockGS), run by DOEDriver(ListGenerator, 2-4 points) or by repeated run_model with "
         "problem.record(), one SqliteRecorder attached to a drawn subset of {driver, problem, model, component, nonlinear "
         "solver}, record_derivatives drawn. For each spec EVERY boundary k = 1..K of the sqlite call stream after final_setup is "
-        "a case (K is typically 40-200), plus 6 real SIGKILLs at delays spread over the run. Non-trivial = the process died strictly inside a transaction (after an INSERT, before "
+        "a case in the thorough tier (K is typically 40-300); the quick tier visits all of them when K <= 45 and a seeded "
+        "sample of 45 otherwise (the stream repeats the same statements for every recorded case); plus 4 (quick) or 6 real "
+        "SIGKILLs at delays spread over the run. After every crash the per-source case listings must also agree with the "
+        "global case list. Non-trivial = the process died strictly inside a transaction (after an INSERT, before "
         "its commit) or before the first commit of a case. Distinct = distinct (spec, k).")
 ASSUMPTIONS = [
     "process death is modelled by os._exit(137) at a call boundary of the sqlite3 API inside a forked child: neither Python "
@@ -103,7 +106,8 @@ def execute_run(p, spec):
     else:
         for i, pt in enumerate(spec['points'][:spec['npts']]):
             p.set_val('iv.x', np.array(pt, dtype=float))
-            p.run_model()
+            # repeated runs restart the iteration counters: a case_prefix keeps the case names unique (as the docs advise)
+            p.run_model(case_prefix=f"run{i}")
             if 'problem' in spec['attach']:
                 p.record(f"pt{i}")
     p.cleanup()
@@ -189,7 +193,16 @@ def _child(spec, k, wdir, wfd):
 
         def connect(*a, **kw):
             kw.setdefault('factory', _Conn)
-            return real_connect(*a, **kw)
+            con = real_connect(*a, **kw)
+            # the property is about the death of the process, not of the machine: without fsync the operating system
+            # still holds every page the process wrote, so what a reader sees after the kill is unchanged (and the
+            # enumeration is ~5x cheaper)
+            armed, _Crash.armed = _Crash.armed, False
+            try:
+                con.execute('PRAGMA synchronous=OFF')
+            finally:
+                _Crash.armed = armed
+            return con
         sqlite3.connect = connect
         _Crash.target = k
         _Crash.pipe = wfd
@@ -255,7 +268,18 @@ def read_cases(wdir):
                 for k2 in src.keys():
                     vals[k2] = np.asarray(src[k2]).copy()
         out.append((n, c.source, vals))
+    # the per-source listings are read from the case tables themselves, the global list from the iteration index:
+    # both must describe the same cases
+    by_source = []
+    for src in cr.list_sources(out_stream=None):
+        by_source.extend(cr.list_cases(src, recurse=False, flat=True, out_stream=None))
+    if sorted(by_source) != sorted(names):
+        raise InconsistentListing(f"cases listed per source {sorted(by_source)} differ from the global case list {sorted(names)}")
     return out
+
+
+class InconsistentListing(Exception):
+    pass
 
 
 def reference(spec):
@@ -364,7 +388,10 @@ def check(case):
         try:
             got = read_cases(wdir)
         except Exception as e:
-            sig = core.repo_frame_signature(e, 'reader') or f"reader:{type(e).__name__}"
+            if isinstance(e, InconsistentListing):
+                sig = 'source-listing-differs-from-global-list'
+            else:
+                sig = core.repo_frame_signature(e, 'reader') or f"reader:{type(e).__name__}"
             res.fail(f"unreadable-after-crash:{sig}", f"k={k} at {label}: {type(e).__name__}: {e}")
             res.classes = cls
             return res
@@ -395,6 +422,8 @@ def spec_strategy():
         coupled = draw(st.booleans())
         opts = ['driver', 'problem', 'model', 'comp'] + (['solver'] if coupled else [])
         attach = draw(st.lists(st.sampled_from(opts), min_size=1, max_size=3, unique=True))
+        if coupled and 'solver' not in attach and draw(st.booleans()):
+            attach = attach[:2] + ['solver']
         driver = draw(st.sampled_from(['doe', 'runs']))
         if driver == 'runs' and attach == ['driver']:
             attach = ['driver', 'problem']
@@ -408,7 +437,8 @@ def spec_strategy():
 def units(tier, seed):
     n = 16 if tier == 'quick' else 32
     per = 1 if tier == 'quick' else 12
-    return [{'kind': 'enumerate', 'nspecs': per, 'seed': core.shard_seed(seed, ID, i)} for i in range(n)]
+    return [{'kind': 'enumerate', 'nspecs': per, 'seed': core.shard_seed(seed, ID, i),
+             'max_boundaries': 45 if tier == 'quick' else None, 'nkills': 4 if tier == 'quick' else 6} for i in range(n)]
 
 
 def run_unit(unit, ctx):
@@ -416,17 +446,30 @@ def run_unit(unit, ctx):
     from hypothesis import given, settings, HealthCheck, Phase
     specs = []
 
+    # Hypothesis starts every run with its simplest example (one recorder on the driver of the plain model): draw four
+    # more than needed and keep the last ones, so that the shards explore different specs
     @hypothesis.seed(unit['seed'])
-    @settings(max_examples=unit['nspecs'], phases=[Phase.generate], database=None, deadline=None,
+    @settings(max_examples=unit['nspecs'] + 4, phases=[Phase.generate], database=None, deadline=None,
               suppress_health_check=list(HealthCheck))
     @given(spec_strategy())
     def collect(s):
-        specs.append(s)
+        if s not in specs:
+            specs.append(s)
     collect()
+    specs = specs[-unit['nspecs']:]
+    import random
+    rng = random.Random(unit['seed'])
     for spec in specs:
         L, K = reference(spec)
         last = -1
-        for k in range(1, K + 1):
+        ks = list(range(1, K + 1))
+        cap = unit.get('max_boundaries')
+        if cap and K > cap:
+            # quick tier: a seeded sample of the boundaries (the call stream repeats the same few statements for every
+            # case, so a sample visits every kind of boundary several times); the thorough tier visits all of them
+            ks = sorted(rng.sample(ks, cap))
+            ctx.extra['sampled_specs'] = ctx.extra.get('sampled_specs', 0) + 1
+        for k in ks:
             case = {'spec': spec, 'k': k}
             _last.pop('plen', None)
             res = core.safe_check(check, case, ctx)
@@ -445,4 +488,5 @@ def run_unit(unit, ctx):
         for j in range(nk):
             core.safe_check(check, {'kind': 'sigkill', 'spec': spec, 'delay_ms': round(dur_ms * (j + 0.5) / nk, 1)}, ctx)
         ctx.extra['specs'] = ctx.extra.get('specs', 0) + 1
-        ctx.extra['boundaries'] = ctx.extra.get('boundaries', 0) + K
+        ctx.extra['boundaries'] = ctx.extra.get('boundaries', 0) + len(ks)
+        ctx.extra['boundaries_of_complete_runs'] = ctx.extra.get('boundaries_of_complete_runs', 0) + K
